@@ -108,7 +108,8 @@ def main() -> int:
     # are scaled so that pass 1 cannot use more than 60% of the budget, and whatever is left is
     # redistributed in pass 2 over the obligations that did not finish. An obligation that does
     # not finish is reported as inconclusive, never as held.
-    declared = [float(o.get('timeout', 60)) for o in obs]
+    # caps are wall-clock seconds; the quick tier's were tuned in CPU seconds on an idle machine: half as much again
+    declared = [float(o.get('timeout', 60)) * (1.5 if a.tier == 'quick' else 1.0) for o in obs]
     factor = 1.0
     if a.budget > 0 and declared:
         factor = min(1.0, 0.6 * a.budget * a.jobs / max(sum(declared), 1.0))
